@@ -424,3 +424,67 @@ func (l *Ledger) SeedInviteePool(nodes []*simnode.Node) {
 	}
 	s.R.Probe("seeded_invitee_pool")
 }
+
+// SeedDrainedActivation sets up the history "an invitation address spends most of its funds and, in the same block,
+// activates the invitation for a foreign funded wallet with a large tip": god invites a fresh key with funds now; once
+// the invitation exists the invitee submits a SendTx of ~90 % of its balance followed by an ActivationTx (recipient: a
+// plain funded account, payload: that account's public key, tips: half of the original balance). Both pass the mempool
+// (which judges each against the committed state); whether the second may still be applied is the block's business.
+func (l *Ledger) SeedDrainedActivation(nodes []*simnode.Node) {
+	s := l.S
+	view := nodes[0]
+	st := view.App.State
+	god := s.byAddr[st.GodAddress()]
+	if god == nil || st.ValidationPeriod() != 0 || len(s.Extra) == 0 {
+		return
+	}
+	x := s.fresh("drained-invitee", 1)
+	var txs []*types.Transaction
+	view.Do(func() {
+		switch st.GetIdentityState(x.Addr) {
+		case 0: // Undefined: invite
+			if st.GodAddressInvites() == 0 {
+				return
+			}
+			nonce, ep := s.NextNonce(view, god)
+			amt := new(big.Int).Div(st.GetBalance(god.Addr), big.NewInt(25))
+			tx := &types.Transaction{AccountNonce: nonce, Epoch: ep, Type: types.InviteTx, To: &x.Addr, Amount: amt}
+			tx.MaxFee = new(big.Int).Mul(fee.CalculateFee(view.App.ValidatorsCache.NetworkSize(), FeeRate(view), tx), big.NewInt(3))
+			txs = append(txs, s.sign(tx, god))
+		case 1: // Invite: drain, then activate for a foreign funded wallet with a tip the rest cannot pay
+			bal := st.GetBalance(x.Addr)
+			if bal.Sign() == 0 || st.GetNonce(x.Addr) > 0 && st.GetEpoch(x.Addr) == st.Epoch() {
+				return
+			}
+			var target *Ident
+			for _, e := range s.Extra {
+				if e.Init != 255 && st.GetBalance(e.Addr).Cmp(bal) > 0 && st.GetIdentityState(e.Addr) == 0 {
+					target = e
+					break
+				}
+			}
+			if target == nil {
+				return
+			}
+			ep := st.Epoch()
+			to := god.Addr
+			send := &types.Transaction{AccountNonce: 1, Epoch: ep, Type: types.SendTx, To: &to, Amount: new(big.Int).Div(new(big.Int).Mul(bal, big.NewInt(9)), big.NewInt(10))}
+			send.MaxFee = new(big.Int).Mul(fee.CalculateFee(view.App.ValidatorsCache.NetworkSize(), FeeRate(view), send), big.NewInt(2))
+			act := &types.Transaction{AccountNonce: 2, Epoch: ep, Type: types.ActivationTx, To: &target.Addr, Payload: target.PubK, Tips: new(big.Int).Div(bal, big.NewInt(2))}
+			act.MaxFee = new(big.Int).Mul(fee.CalculateFee(view.App.ValidatorsCache.NetworkSize(), FeeRate(view), act), big.NewInt(2))
+			txs = append(txs, s.sign(send, x), s.sign(act, x))
+		}
+	})
+	for _, tx := range txs {
+		any := false
+		for _, n := range nodes {
+			if s.Submit(n, tx) == nil {
+				any = true
+			}
+		}
+		if any {
+			s.NoteAccepted(tx)
+			s.R.Probe("seeded_drained_activation_tx")
+		}
+	}
+}
